@@ -6,6 +6,7 @@ import (
 	"fmt"
 	"io"
 	"maps"
+	"math"
 	"reflect"
 	"slices"
 	"sort"
@@ -240,9 +241,17 @@ func (o *ObjectSchema) unserializeToStruct(rawData map[string]any) (any, error) 
 			}()
 			if field.Kind() == reflect.Pointer && v.Kind() != reflect.Pointer {
 				f = reflect.New(f.Type().Elem())
+				if err := fitsNumericField(v, f.Elem().Type()); err != nil {
+					recoveredError = err
+					return
+				}
 				f.Elem().Set(v.Convert(f.Elem().Type()))
 				field.Set(f)
 			} else {
+				if err := fitsNumericField(v, f.Type()); err != nil {
+					recoveredError = err
+					return
+				}
 				f.Set(v.Convert(f.Type()))
 			}
 		}()
@@ -262,6 +271,30 @@ func (o *ObjectSchema) unserializeToStruct(rawData map[string]any) (any, error) 
 		result = reflectedValue.Interface()
 	}
 	return result, nil
+}
+
+// fitsNumericField refuses a number that the field type cannot hold: the conversion into a narrower or unsigned field
+// would wrap around (-1 in a uint field is 18446744073709551615, 300 in a uint8 field is 44), and the value handed out
+// would be another number than the one that was validated.
+func fitsNumericField(v reflect.Value, fieldType reflect.Type) error {
+	probe := reflect.Zero(fieldType)
+	overflows := false
+	switch {
+	case probe.CanInt() && v.CanInt():
+		overflows = probe.OverflowInt(v.Int())
+	case probe.CanInt() && v.CanUint():
+		overflows = v.Uint() > math.MaxInt64 || probe.OverflowInt(int64(v.Uint()))
+	case probe.CanUint() && v.CanInt():
+		overflows = v.Int() < 0 || probe.OverflowUint(uint64(v.Int()))
+	case probe.CanUint() && v.CanUint():
+		overflows = probe.OverflowUint(v.Uint())
+	case probe.CanFloat() && v.CanFloat():
+		overflows = !math.IsInf(v.Float(), 0) && probe.OverflowFloat(v.Float())
+	}
+	if overflows {
+		return fmt.Errorf("%v does not fit into a field of type %s", v.Interface(), fieldType)
+	}
+	return nil
 }
 
 // fieldByIndexAlloc is reflect.Value.FieldByIndex for a value that is being filled: where the way to the field leads
